@@ -86,6 +86,9 @@ def slot_shapes(ops_outer, ops_inner, contexts=("bare", "seq", "sor")):
     for o in ops_outer:
         n, nx = inst(o, S(0), 1)
         shapes.append(n)
+        if o in ("seq", "sor"):
+            shapes.append(gen.N(o, [S(0)]))  # packs of one element take a different path (no guard of their own)
+            shapes.append(gen.N(o, [gen.N("seq", [S(0), S(1)])]))
         if o in ("seq", "sor", "star", "plus", "opt", "at", "not_at"):
             # arity 2/3 variants for pack-taking rules
             shapes.append(gen.N(o, [S(0), S(1)]))
@@ -464,10 +467,21 @@ def ambiguous_types(g):
     return amb
 
 
-def attach_actions(g, rnd, kinds, density=0.35, influence=False):
+def attach_actions(g, rnd, kinds, density=0.35, influence=False, fam1=False):
     """influence: the grammar will run with vetoing or throwing scripts -> keep ambiguous positions free of actions
-    (throwing) resp. of bool actions (veto only)."""
+    (throwing) resp. of bool actions (veto only).  fam1: also populate the second action family (selected by action< act1, ... >)."""
     amb = ambiguous_types(g) if influence else set()
+    if fam1:
+        for r in g.rules:
+            for n in r.walk():
+                if n.op in ("ref", "raise", "raise_message", "if_then") or n.op in gen.CATCH_KIND:
+                    continue
+                ct = gen.ctype(n)
+                if ct not in amb and rnd.random() < 0.45:
+                    g.fam1.setdefault(ct, rnd.choice(kinds))
+        for i in range(len(g.rules)):
+            if "R%d" % i not in amb and rnd.random() < 0.6:
+                g.fam1["R%d" % i] = rnd.choice(kinds)
 
     def pick(ct):
         if ct in amb:
@@ -489,12 +503,60 @@ def attach_actions(g, rnd, kinds, density=0.35, influence=False):
                     g.actions.setdefault(ct, k)
 
 
-def gen_grammars(n, seed, ops, depth, rnd, kinds, veto=False, throw=False, errmsg=False, atoms=None):
+def nesting_shapes(rnd, depth3=True, quads=0):
+    """C04: every nesting w1< w2< w3< R1 > > > of the six rules that select whether and which actions run
+    (enable, disable, at, not_at, action< act >, action< act1 >) around a leaf with actions in both families."""
+    N = gen.N
+    W = ["enable", "disable", "at", "not_at", "action0", "action1"]
+
+    def wrap(w, k):
+        if w.startswith("action"):
+            return N("action", [k], fam=int(w[-1]))
+        return N(w, [k])
+    import itertools
+    combos = list(itertools.product(W, repeat=3))
+    if quads:
+        allq = list(itertools.product(W, repeat=4))
+        rnd.shuffle(allq)
+        combos += allq[:quads]
+    out = []
+    for ci, ws in enumerate(combos):
+        inner = N("ref", i=1)
+        for w in reversed(ws):
+            inner = wrap(w, inner)
+        top = N("seq", [inner, N("ref", i=2)])
+        r1 = N("plus", [N("one", s="a")])
+        r2 = N("star", [N("one", s="ab")])
+        g = gen.Grammar([top, r1, r2], veto=True)
+        kinds = [[1, 3], [3, 2], [4, 1], [2, 4], [3, 3], [1, 1]][ci % 6]
+        g.actions["R1"] = kinds[0]
+        g.fam1["R1"] = kinds[1]
+        g.actions[gen.ctype(N("one", s="a"))] = kinds[1]
+        g.fam1[gen.ctype(N("one", s="a"))] = kinds[0]
+        if ci % 2:
+            g.actions["R2"] = 1
+            g.fam1["R2"] = 2
+        # the wrappers themselves are rule types too
+        n = top.kids[0]
+        while n.op != "ref":
+            ct = gen.ctype(n)
+            if rnd.random() < 0.3:
+                g.actions.setdefault(ct, rnd.choice([1, 2]))
+            if rnd.random() < 0.3:
+                g.fam1.setdefault(ct, rnd.choice([1, 2]))
+            n = n.kids[0]
+        g.alphabet = "ab"
+        g.note = "nest:" + "<".join(ws)
+        out.append(g)
+    return out
+
+
+def gen_grammars(n, seed, ops, depth, rnd, kinds, veto=False, throw=False, errmsg=False, atoms=None, fam1=False):
     G = gen.Gen(seed, ops=ops, max_depth=depth, atoms=atoms)
     out = []
     for _ in range(n):
         g, rej = G.grammar()
-        attach_actions(g, rnd, kinds, influence=veto or throw)
+        attach_actions(g, rnd, kinds, influence=veto or throw, fam1=fam1)
         g.veto = veto
         g.throw = throw
         if errmsg:
@@ -513,6 +575,10 @@ def action_corpus(pid, tier, seed, workdir):
     runs = []
     # (1) vetoing bool actions at sound positions
     g1 = gen_grammars(70 if q else 700, seed * 1000 + 31, SAFE_ACTION_OPS, 3 if q else 4, rnd, [1, 2, 3, 4], veto=True)
+    # (1b) two action families: action< act1, ... > nested with enable / disable / at / not_at; vetoing bool actions in both
+    g1b = gen_grammars(40 if q else 400, seed * 1000 + 33, CORE_OPS + ["enable", "disable", "action", "action", "action", "list", "pad", "if_must"],
+                       3 if q else 4, rnd, [1, 2, 3, 4], veto=True, fam1=True)
+    g1c = nesting_shapes(rnd, quads=0 if q else 600)
     # (2) void-only logging actions anywhere, all operators
     g2 = gen_grammars(50 if q else 500, seed * 1000 + 37, CORE_OPS + CONV_OPS + ["enable", "disable"], 3 if q else 4, rnd, [1, 2])
     # (3) global failure: must family, raise, try_catch, throwing actions, custom messages
@@ -560,11 +626,15 @@ def action_corpus(pid, tier, seed, workdir):
         for t in write_tus(workdir, "a5", gm, per, 9, C09_INCLUDES):
             runs.append(Run(t, args=["--prop", pid]))
     if pid == "C08":
-        for tag, gs_, n_ in (("h1", g1, per), ("h2", g2, per), ("h3", g3, per), ("h4", shapes, 16)):
+        for tag, gs_, n_ in (("h1", g1, per), ("h1b", g1b, per), ("h1c", g1c, 54 if q else 60), ("h2", g2, per), ("h3", g3, per), ("h4", shapes, 16)):
             for t in write_tus(workdir, tag, gs_, n_, 4, C09_INCLUDES):
                 runs.append(Run(t, args=["--prop", pid] + (["--rc", "400" if q else "5000"] if tag == "h4" else [])))
         return runs
     for t in write_tus(workdir, "a1", g1, per, 3, C09_INCLUDES):
+        runs.append(Run(t, args=["--prop", pid]))
+    for t in write_tus(workdir, "a1b", g1b, per, 3, C09_INCLUDES):
+        runs.append(Run(t, args=["--prop", pid]))
+    for t in write_tus(workdir, "a1c", g1c, 54 if q else 60, 3, C09_INCLUDES):
         runs.append(Run(t, args=["--prop", pid]))
     for t in write_tus(workdir, "a2", g2, per, 2, C09_INCLUDES):
         runs.append(Run(t, args=["--prop", pid]))
@@ -586,7 +656,11 @@ def plan_actions(pid):
 
 ACTION_CORPUS_TEXT = ("corpus: (1) random grammars over core operators, enable/disable and the convenience rules whose documented expansion "
                       "does not move a sub-rule under not_at, with void/bool apply/apply0 actions on named rules and sub-expressions, bool "
-                      "actions vetoing by a deterministic predicate of (rule, begin, end, salt); (2) void logging actions anywhere over all "
+                      "actions vetoing by a deterministic predicate of (rule, begin, end, salt); (1b) the same with two action class "
+                      "templates, action< act1, ... > nested in enable/disable/at/not_at and vice versa (the model tracks which family is "
+                      "in effect; the log records the family of every invoked action); (1c) all 216 three-level nestings (thorough: plus 600 "
+                      "four-level ones) of enable / disable / at / not_at / action< act > / action< act1 > around a rule with bool and void "
+                      "actions in both families; (2) void logging actions anywhere over all "
                       "operators; (3) must/if_must/opt_must/star_must/list_must/raise/raise_message/all eight try_catch rules with actions "
                       "that throw std- and non-std exceptions carrying a serial number, custom error_message members; (4) every combinator "
                       "over slots that raise or throw, try blocks nested in predicates, repetitions and choices.  Inputs: all strings to "
